@@ -3,6 +3,7 @@ package rules
 import (
 	"fmt"
 	"go/token"
+	"strings"
 
 	"golang.org/x/tools/go/ssa"
 
@@ -829,5 +830,107 @@ func ruleDNS(c *Ctx) {
 			}
 		}
 		c.Check("DNS", "deadline-extension-uses-classifier", "-", uses, "the deadline extension does not consult the DNS classifier")
+		ruleDNSTimeoutValue(c, m, isDNSFn, ext)
 	}
+}
+
+// ruleDNSTimeoutValue: whenever the written address is classified DNS, the timeout added to "now" is the 17 s constant —
+// on every path, whatever the configured timeout is. Every other value that can reach the addition does so only over
+// edges taken when the classification is false.
+func ruleDNSTimeoutValue(c *Ctx, m *udpModel, cls *ssa.Function, ext []*ssa.Function) {
+	p := c.P
+	is17 := func(v ssa.Value) bool {
+		cst, ok := v.(*ssa.Const)
+		return ok && cst.Value != nil && cst.Type().String() == "time.Duration" && cst.Int64() == 17_000_000_000
+	}
+	// edges of f on which the DNS classification is false
+	notDNS := func(f *ssa.Function) eng.EdgeSet {
+		isCls := func(v ssa.Value) bool {
+			return p.AnyFrom(v, eng.OriginOpts{Interproc: true}, func(x ssa.Value) bool {
+				cc, ok := x.(*ssa.Call)
+				return ok && callTo(c, cc, cls)
+			})
+		}
+		_, fe := eng.BoolEdges(f, isCls)
+		return fe
+	}
+	var bad []string
+	seen := map[ssa.Value]bool{}
+	// walk(v, f, okCtx): okCtx = the place v is taken from is reachable only with the classification false
+	var walk func(v ssa.Value, f *ssa.Function, okCtx bool, d int)
+	walk = func(v ssa.Value, f *ssa.Function, okCtx bool, d int) {
+		if d > 12 {
+			bad = append(bad, "too deep")
+			return
+		}
+		if is17(v) {
+			return
+		}
+		switch x := v.(type) {
+		case *ssa.Phi:
+			if seen[x] {
+				return
+			}
+			seen[x] = true
+			fe := notDNS(f)
+			for i, ev := range x.Edges {
+				pred := x.Block().Preds[i]
+				ectx := okCtx || fe[eng.Edge{From: pred, To: x.Block()}] || (len(fe) > 0 && eng.Cut(f, pred, fe))
+				walk(ev, f, ectx, d+1)
+			}
+			return
+		case *ssa.Call:
+			if h := x.Call.StaticCallee(); h != nil && p.InRepo(h) && len(h.Blocks) > 0 && h.Signature.Results().Len() == 1 {
+				fe := notDNS(h)
+				for _, r := range eng.Returns(h) {
+					if len(r.Results) == 1 {
+						rv := r.Results[0]
+						if s := p.ReachingStore(rv, r); s != nil {
+							rv = s
+						}
+						walk(rv, h, okCtx || (len(fe) > 0 && eng.Cut(h, r.Block(), fe)), d+1)
+					}
+				}
+				return
+			}
+		case *ssa.UnOp:
+			if r := p.Resolve(x); r != ssa.Value(x) {
+				walk(r, f, okCtx, d+1)
+				return
+			}
+		}
+		if !okCtx {
+			bad = append(bad, valStr(p, v))
+		}
+	}
+	n := 0
+	fns := map[*ssa.Function]bool{}
+	roots := append([]*ssa.Function{}, ext...)
+	if m.connWrite != nil {
+		roots = append(roots, m.connWrite)
+	}
+	for _, e := range roots {
+		for _, g := range regionFns(c, e, nil, 3) {
+			fns[g] = true
+		}
+		fns[e] = true
+	}
+	for f := range fns {
+		for _, cl := range eng.Calls(f) {
+			call, ok := cl.(*ssa.Call)
+			if !ok || eng.CalleeName(&call.Call) != "(time.Time).Add" {
+				continue
+			}
+			nc, ok := p.Resolve(call.Call.Args[0]).(*ssa.Call)
+			if !ok || eng.CalleeName(&nc.Call) != "time.Now" {
+				continue
+			}
+			n++
+			bad = nil
+			fe := notDNS(f)
+			walk(call.Call.Args[1], f, len(fe) > 0 && eng.Cut(f, call.Block(), fe), 0)
+			c.CheckAt("DNS", short(f)+":timeout-is-17s-whenever-the-destination-is-DNS", call, len(bad) == 0, "for a datagram to a DNS server the deadline can be extended by something other than 17 s ("+strings.Join(bad, ", ")+"): with a configured timeout below 17 s the association dies before the promised 17 s after its latest DNS datagram")
+		}
+	}
+	c.Floor("DNS", "now+timeout computations in the deadline extension", n, 1)
 }
